@@ -105,7 +105,7 @@ T["C16"] = dict(
     ref="6. C16")
 
 T["C17"] = dict(
-    text="spec/FunctionSyntax.tla holds formula trees over the 13 operators and 34 functions of the function factory (precedence, associativity and arity table in spec/ShuntingYard.tla), a printer with minimal or redundant parentheses, the shunting-yard of Function.infix_to_postfix and the postfix-to-tree machine of Function.parse, and the documented numeric meaning of every element in exact extended-real arithmetic (kernel expressions where irrational). TLC proves on 8,663 well-typed trees (two operator levels; every precedence level, both associativities, unary/binary functions, pi) x 2 styles, and on seeded trees of depth 3-5 over all elements, that reading the printed formula returns the tree and that the tree's postfix is the shunting-yard output; canary: a printer that takes `-` for right-associative must fail. Every text, spaced and unspaced, is loaded by Function.create: root.postfix() against the specification's, membership(x) against the specification's value under 5 assignments of x / an engine input variable / a term variable as scalars and as arrays (elementwise), reserved-name rules, ill-formed variants rejected at load.",
+    text="spec/FunctionSyntax.tla holds formula trees over the 13 operators and 34 functions of the function factory (precedence, associativity and arity table in spec/ShuntingYard.tla), a printer with minimal or redundant parentheses, the shunting-yard of Function.infix_to_postfix and the postfix-to-tree machine of Function.parse, and the documented numeric meaning of every element in exact extended-real arithmetic (kernel expressions where irrational). TLC proves on ~10,000 well-typed trees (two operator levels; every precedence level, both associativities, unary/binary functions, pi) x 2 styles, and on seeded trees of depth 3-5 over all elements, that reading the printed formula returns the tree and that the tree's postfix is the shunting-yard output; canary: a printer that takes `-` for right-associative must fail. Every text, spaced and unspaced, is loaded by Function.create: root.postfix() against the specification's, membership(x) against the specification's value under 5 assignments of x / an engine input variable / a term variable as scalars and as arrays (elementwise), reserved-name rules, ill-formed variants rejected at load, operands left unmodified. spec/FunctionScope.tla is the state machine of what a long-lived term can see (engine input/output variable lists with object identity, values, the term's own variables, attach/detach, configure/unload/load); TLC enumerates every behaviour of 4 (thorough 5) operations ending in an evaluation, checks that an evaluation sees the current scope (canary: a scope cached at first evaluation must fail) and each behaviour is replayed step by step on a real term.",
     note="Values the documentation does not determine are not judged and counted (sign of a computed zero under / pow atan2, NaN operand of min/max, discontinuous elements on operands binary64 cannot hold exactly); transcendental functions by libm (1e-9). The clause 'parsing the postfix of the tree yields the same values' is carried by: code postfix = PostfixF(tree) (compared), ParsePF(PostfixF(tree)) = tree (TLC), Eval(tree) = code values (compared).",
     technique="TLA+ syntax machines + exact evaluator; TLC design theorem with canary; spec->code replay of texts (postfix) and values (scalars, arrays)",
     ref="6. C17")
